@@ -54,6 +54,8 @@ type TCPScenario struct {
 	// Headerless: streams carry no identifying header (so a direction can be completely empty); only valid with
 	// exactly one connection and no health checker
 	Headerless bool `json:"headerless,omitempty"`
+	// RandSeq: values handed to the load balancer's random source, in order (cyclic); empty: the default source
+	RandSeq []int `json:"rand_seq,omitempty"`
 }
 
 func streamKey(header string) uint64 { return simhook.HashString("stream:" + header) }
